@@ -94,16 +94,19 @@ def run(ctx):
                 for b in v["bad"]:
                     evs = [e for e in ev[max(0, b["line"] - 40):b["line"]] if e.get("sc") == b["sc"]]
                     sig = {"assembler": b["asm"], "reason": b["reason"], "op": b["op"], "phase": what}
+                    replay_extra = {}
                     if what == "controlled":
-                        # does PoolConc.tla (code shape) predict, for this very schedule, that a packet is processed on a
-                        # connection object recycled since its lookup?  (the free-running phase has no schedule to ask)
-                        sig["model_predicts_stale_connection_use"] = bool(predicted[b["sc"] - 1])
+                        # PoolConc.tla's prediction for this schedule (informative: the order in which a real FlushAll visits
+                        # its snapshot is Go's map order, which the schedule does not fix, so the replay may resolve the
+                        # model's choice differently; findings are identified by what the driver observes at Stream.Accept)
+                        replay_extra["model_predicts_stale_connection_use"] = bool(predicted[b["sc"] - 1])
+                        replay_extra["schedule"] = json.loads(scen[b["sc"] - 1])
                     if b["reason"] == "data-race":
                         e = ev[b["line"] - 1]
                         sig["pair"] = "%s | %s" % (e.get("first"), e.get("second"))
                     if b["reason"] == "panic":
                         sig["msg"] = (ev[b["line"] - 1].get("msg") or "")[:40]
-                    V.reject(sig, {"phase": what, "driver": drv, "bad": b, "events": evs})
+                    V.reject(sig, dict({"phase": what, "driver": drv, "bad": b, "events": evs}, **replay_extra))
             if not samples:
                 with open(tpx) as f:
                     samples = [json.loads(next(f)) for _ in range(6)]
